@@ -138,7 +138,7 @@ func c05Normal(q Q) bool {
 }
 
 func c05NewEnv() *c05Env {
-	e := &c05Env{budget: verifrt.Param("nodes", 5, 6)}
+	e := &c05Env{budget: verifrt.Param("nodes", 3, 4)}
 	for i := 0; i < 2; i++ {
 		e.name[i], e.content[i] = verifrt.Bool("inName"), verifrt.Bool("inContent")
 	}
